@@ -102,7 +102,14 @@ def gen_env(rng: random.Random) -> t.List[dict]:
             names = names_for(rng, types)
         rows = gen_rows(rng, types, [e["rows"] for e in env])
         env.append({"schema": [[n, ty] for n, ty in zip(names, types)], "rows": rows})
+    if rng.random() < 0.2:
+        for e in env:
+            e["display"] = [rng.choice([n, n.upper()]) for n, _ in e["schema"]]
     return env
+
+
+def has_setop(p: dict) -> bool:
+    return p["k"] in ("setop", "byName") or (p["k"] == "step" and has_setop(p["p"]))
 
 
 def gen_where(rng: random.Random, schema: Schema) -> dict:
@@ -140,7 +147,13 @@ def gen_select(rng: random.Random, schema: Schema) -> t.Tuple[dict, Schema]:
 def maybe_step(rng: random.Random, node: dict, schema: Schema, p: float) -> t.Tuple[dict, Schema]:
     if rng.random() >= p:
         return node, schema
-    if rng.random() < 0.55:
+    c = rng.random()
+    if c < 0.16 and has_setop(node):
+        # de-duplication of a set-operation result (optionally behind a filter): still an ordinary DataFrame
+        if rng.random() < 0.3:
+            node = {"k": "step", "p": node, "s": gen_where(rng, schema)}
+        return {"k": "step", "p": node, "s": {"k": rng.choice(["distinct", "dropDuplicates"])}}, schema
+    if c < 0.6:
         return {"k": "step", "p": node, "s": gen_where(rng, schema)}, schema
     s, out = gen_select(rng, schema)
     return {"k": "step", "p": node, "s": s}, out
@@ -159,10 +172,6 @@ def adapt(rng: random.Random, node: dict, schema: Schema, target: Schema) -> t.T
         else:
             items.append([nm, ("lit", rng.choice([0, 1, None]) if ty == "int" else rng.choice(["a", None]))])
     return {"k": "step", "p": node, "s": {"k": "select", "items": items}}, list(target)
-
-
-def has_setop(p: dict) -> bool:
-    return p["k"] in ("setop", "byName") or (p["k"] == "step" and has_setop(p["p"]))
 
 
 def gen_node(rng: random.Random, env: t.List[dict], depth: int, subs: t.List[t.Tuple[dict, Schema]], stats: dict) -> t.Tuple[dict, Schema]:
@@ -238,6 +247,8 @@ def step_to_lean(s: dict) -> t.Any:
         return {"select": {"items": [[n, X.to_lean(tuple_(e))] for n, e in s["items"]]}}
     if s["k"] == "limit":
         return {"limit": {"n": s["n"]}}
+    if s["k"] in ("distinct", "dropDuplicates"):  # dropDuplicates() without a subset is distinct()
+        return "distinct"
     raise ValueError(s)
 
 
@@ -263,6 +274,8 @@ def show_step(s: dict) -> str:
         return f"where({X.show(tuple_(s['p']))})"
     if s["k"] == "limit":
         return f"limit({s['n']})"
+    if s["k"] in ("distinct", "dropDuplicates"):
+        return s["k"] + "()"
     return "select(" + ", ".join(f"{X.show(tuple_(e))}.alias({n!r})" for n, e in s["items"]) + ")"
 
 
@@ -278,7 +291,7 @@ def show_prog(p: dict) -> str:
 
 
 def show_case(c: dict) -> str:
-    tabs = "; ".join(f"t{i}={[n for n, _ in e['schema']]}{e['rows']}" for i, e in enumerate(c["env"]))
+    tabs = "; ".join(f"t{i}={e.get('display') or [n for n, _ in e['schema']]}{e['rows']}" for i, e in enumerate(c["env"]))
     return f"{tabs}; {show_prog(c['prog'])}"
 
 
@@ -344,6 +357,10 @@ def build(p: dict, bases: t.List[t.Any], memo: t.Dict[str, t.Any], F: t.Any) -> 
             df = src.where(X.to_column(tuple_(s["p"]), F))
         elif s["k"] == "limit":
             df = src.limit(s["n"])
+        elif s["k"] == "distinct":
+            df = src.distinct()
+        elif s["k"] == "dropDuplicates":
+            df = src.dropDuplicates()
         else:
             df = src.select(*[X.to_column(tuple_(e), F).alias(n) for n, e in s["items"]])
     elif k == "setop":
@@ -362,9 +379,16 @@ def run_impl(c: dict) -> dict:
     from sqlframe.duckdb import functions as F
 
     try:
-        bases = [X.make_df(session(), {n: ty for n, ty in e["schema"]}, e["rows"]) for e in c["env"]]
+        bases = [
+            X.make_df(session(), {(e["display"][i] if e.get("display") else n): ty for i, (n, ty) in enumerate(e["schema"])}, e["rows"])
+            for e in c["env"]
+        ]
         df = build(c["prog"], bases, {}, F)
         cols = list(df.columns)
+        if any(e.get("display") for e in c["env"]):
+            # the operands spell shared columns with different letter case: only the (case-insensitive) matching is
+            # under test here; which spelling the result displays belongs to C10
+            cols = [x.lower() for x in cols]
         rows = [[plain(v) for v in r] for r in df.collect()]
         return {"cols": cols, "rows": rows}
     except Exception as e:  # noqa
@@ -562,6 +586,26 @@ def hand_cases() -> t.List[dict]:
         out.append({"env": [a, b, e], "prog": {"k": "byName", "am": am, "l": B(0), "r": B(0)}})
     out.append({"env": [a, z, e], "prog": {"k": "byName", "am": True, "l": B(0), "r": B(1)}})
     out.append({"env": [a, z, e], "prog": {"k": "byName", "am": True, "l": B(1), "r": B(0)}})
+    dd = {"schema": [["x", "int"], ["y", "int"]], "rows": [[1, 2], [1, 2], [1, 2], [None, None], [None, None], [5, None], [5, None], [3, 4]]}
+    ee = {"schema": [["u", "int"], ["v", "int"]], "rows": [[1, 2], [1, 2], [None, None], [None, None], [None, None], [5, None], [5, None], [7, 7]]}
+    for m in METHODS:
+        for k in ("distinct", "dropDuplicates"):
+            out.append({"env": [dd, ee, e], "prog": {"k": "step", "p": {"k": "setop", "m": m, "l": B(0), "r": B(1)}, "s": {"k": k}}})
+    for am in (False, True):
+        out.append({"env": [dd, dd, e], "prog": {"k": "step", "p": {"k": "byName", "am": am, "l": B(0), "r": B(1)}, "s": {"k": "distinct"}}})
+    ia = {"k": "setop", "m": "intersectAll", "l": B(0), "r": B(1)}
+    out.append({"env": [dd, ee, e], "prog": {"k": "setop", "m": "exceptAll", "l": ia, "r": {"k": "step", "p": {"k": "setop", "m": "intersectAll", "l": B(0), "r": B(1)}, "s": {"k": "distinct"}}}})
+    out.append({"env": [dd, ee, e], "prog": {"k": "step", "p": {"k": "step", "p": ia, "s": {"k": "where", "p": ("isNull", ("col", "x"))}}, "s": {"k": "dropDuplicates"}}})
+    # differently-cased spellings of shared columns (PySpark resolves names case-insensitively)
+    cl = {"schema": [["x", "int"], ["y", "int"]], "display": ["X", "Y"], "rows": [[1, 2], [1, 2], [3, None]]}
+    cr = {"schema": [["y", "int"], ["u", "int"], ["v", "int"]], "display": ["y", "U", "V"], "rows": [[10, 20, 30], [None, 21, 31]]}
+    cp = {"schema": [["y", "int"], ["x", "int"]], "display": ["y", "x"], "rows": [[10, 20], [2, 1]]}
+    for am in (True, False):
+        out.append({"env": [cl, cr, cp], "prog": {"k": "byName", "am": am, "l": B(0), "r": B(2)}})
+        out.append({"env": [cl, cr, cp], "prog": {"k": "byName", "am": am, "l": B(2), "r": B(0)}})
+    out.append({"env": [cl, cr, cp], "prog": {"k": "byName", "am": True, "l": B(0), "r": B(1)}})
+    out.append({"env": [cl, cr, cp], "prog": {"k": "byName", "am": True, "l": B(1), "r": B(0)}})
+    out.append({"env": [cl, cr, cp], "prog": {"k": "setop", "m": "exceptAll", "l": {"k": "step", "p": {"k": "byName", "am": True, "l": B(0), "r": B(1)}, "s": {"k": "select", "items": [["x", ("col", "x")], ["y", ("col", "y")]]}}, "r": B(0)}})
     for c in out:
         c["origin"] = "hand"
     # search-only (outside Prog.WF, whose steps are where/select): a non-truncating limit on either operand —
@@ -716,6 +760,8 @@ def run(ctx: Ctx) -> None:
             "right_operand_adapted_by_select": stats["adapted"],
             "byName_permuted_right": stats["permuted"],
             "byName_missing_columns": stats["missing_cols"],
+            "cases_with_differently_cased_column_spellings": sum(1 for r in res if any(e.get("display") for e in r["case"]["env"])),
+            "dedup_steps_after_set_operations": sum(show_prog(r["case"]["prog"]).count("distinct()") + show_prog(r["case"]["prog"]).count("dropDuplicates()") for r in res),
             "samples": [{"program": show_case(r["case"]), "result": r["impl"]} for r in res[:: max(1, len(res) // 4)][:4]],
             **gen_cov,
         }
@@ -724,7 +770,7 @@ def run(ctx: Ctx) -> None:
         "DuckDB evaluates UNION/INTERSECT/EXCEPT [ALL] as Impl/C07SetOps.lean `evalSetop` says (bags, positional, NULLs equal) and one SELECT block as Core/Sql.lean says (validated by this stream on every case)",
         "PySpark's meaning of union/intersect/intersectAll/exceptAll/unionByName is `setSpec` / `byNameSpec` (validated against live PySpark 3.5.9 during construction)",
         "CTE names are abstracted in the model: the de-duplication of `_add_ctes_to_expression` for common ancestors is exercised by the stream only",
-        "further steps inside the theorem are where/select (the bag-determined ones); other C01 steps after a set operation follow from C07_setop's `Fresh` conclusion plus C01",
+        "further steps inside the theorem are where/select/distinct (bag-determined ones); other C01 steps after a set operation follow from C07_setop's `Fresh` conclusion plus C01",
     ]
 
 
